@@ -90,11 +90,23 @@ def build_case(plan, world, home):
     def beh(p, i, k):
         return faults.get((p, i, k), 'BOk')
 
+    class PlannedError(Exception):
+        pass
+
+    # "any other exception": the class must not matter (OS errors, look-up errors, custom classes, ...)
+    exn_classes = [ValueError, FileNotFoundError, KeyError, PermissionError, RuntimeError, PlannedError, OSError, IndexError,
+                   NotImplementedError, AssertionError, UnicodeDecodeError, TimeoutError]
+    exn_counter = [plan.get('exn_offset', 0)]
+
     def raise_if(b):
         if b == 'BHardRaise':
             raise HardErrorException(msg)
         if b == 'BExn':
-            raise ValueError('planned exception')
+            cls = exn_classes[exn_counter[0] % len(exn_classes)]
+            exn_counter[0] += 1
+            if cls is UnicodeDecodeError:
+                raise UnicodeDecodeError('utf-8', b'\xff', 0, 1, 'planned exception')
+            raise cls('planned exception')
 
     def rec(p, k, i, prev=None):
         world.trace.append((p, k, i, prev))
@@ -403,7 +415,8 @@ def gen_plans(ctx):
         plans.append(plan)
     # normalise: status can only be set by a conf instruction; exe-input fault needs a setup instruction
     out = []
-    for pl in plans:
+    for n_plan, pl in enumerate(plans):
+        pl['exn_offset'] = n_plan
         if pl['status'] != 'PASS' and pl['counts']['Conf'] == 0:
             pl['status'] = 'PASS'
         if ('Act', 0, 'SValExeInput') in pl['faults'] and pl['counts']['Setup'] == 0:
